@@ -432,8 +432,8 @@ def obligations(tier: str):
                                   key=_key, functions=funcs, expect_reach=[how + ":succeeds"]))
         obs.append(Obligation("W.set_fixed.1", make_setter_harness("W", "set_fixed", 1, value_kinds), bounds="class W; one call of set_fixed", key=_key, functions=funcs,
                               expect_reach=["set_fixed:accepted iff valid"]))
-    for sym in (("R", "C") if tier == "quick" else ("R", "C", "Q")):
-        L = 2 if tier == "quick" else 3
+    for sym in (("R", "C") if tier == "quick" else ("R", "C", "Q", "W")):
+        L = 2
         obs.append(Obligation("%s.history.%d" % (sym, L), make_history_harness(sym, L),
                               bounds="class %s; every history of length %d over 6 operations from the default state" % (sym, L),
                               key=_key, functions=funcs, expect_reach=["history:value"]))
